@@ -307,7 +307,9 @@ def run(ck):
             if not os.path.exists(cases) or os.path.getsize(cases) == 0:
                 ck.fatal("generator %s produced no cases" % cfg)
             tp = ck.path("trace-%s.ndjson" % name)
-            s = ck.drive("jsgram", "replay", "-cases", cases, "-out", tp, "-seed", ck.seed, "-muts", muts, "-sample", period, timeout=3000)
+            probes = results.get("exprfull", (None,))[0]      # holds the statement `a in b ;` (probe for parser state leaking into the next statement)
+            s = ck.drive("jsgram", "replay", "-cases", cases, "-out", tp, "-seed", ck.seed, "-muts", muts, "-sample", period,
+                         *(["-probes", probes] if probes and os.path.exists(probes) else []), timeout=3000)
             if s["cases"] == 0:
                 ck.fatal("generator %s produced no cases" % cfg)
             ck.cov["evaluations"] += s["executions"]
